@@ -146,10 +146,19 @@ func parseDuration(param lokiapi.PrometheusDuration) (time.Duration, error) {
 	if !strings.ContainsAny(value, "smhdwy") {
 		f, err := strconv.ParseFloat(value, 64)
 		if err == nil {
-			d := f * float64(time.Second)
-			return time.Duration(d), nil
+			d := time.Duration(f * float64(time.Second))
+			if d <= 0 {
+				return 0, errors.Errorf("duration %q must be positive", value)
+			}
+			return d, nil
 		}
 	}
 	md, err := model.ParseDuration(value)
-	return time.Duration(md), err
+	if err != nil {
+		return 0, err
+	}
+	if md <= 0 {
+		return 0, errors.Errorf("duration %q must be positive", value)
+	}
+	return time.Duration(md), nil
 }
